@@ -16,10 +16,10 @@ Proof.
 Qed.
 
 Lemma mul64_lt : forall a b, mul64 a b < M64.
-Proof. intros. unfold mul64. apply N.mod_lt. discriminate. Qed.
+Proof. intros. rewrite mul64_mod. apply N.mod_lt. discriminate. Qed.
 
 Lemma add64_lt : forall a b, add64 a b < M64.
-Proof. intros. unfold add64. apply N.mod_lt. discriminate. Qed.
+Proof. intros. rewrite add64_mod. apply N.mod_lt. discriminate. Qed.
 
 Lemma avalanche_lt : forall h, avalanche h < M64.
 Proof.
